@@ -869,6 +869,35 @@ func runK7scen(r *rng, n int) {
 			s.close()
 			emit("k7scen name=panic-in-unlinkat-keeps-serving => efault=%d child=%d again=%d", efault, child, again)
 		}
+		// a panic in the Renamed notification of a file *below* a renamed directory is answered EFAULT
+		// and leaves no lock behind: the directory can still be walked from and renamed again
+		{
+			s := newK7(r, 1)
+			s.walk(0, 0, 1, p9.ModeDirectory|0755, "d")
+			s.walk(0, 1, 2, p9.ModeDirectory|0755, "s")
+			h3 := s.walk(0, 2, 3, p9.ModeRegular|0644, "f")
+			s.be.mu.Lock()
+			s.be.panicRenH = h3
+			s.be.mu.Unlock()
+			efault, walked, again := 0, 0, 0
+			s.send(0, 74, map[string]interface{}{"OldDirectory": uint64(0), "OldName": "d", "NewDirectory": uint64(0), "NewName": "e"})
+			if _, rt, e, ok := s.recvReply(0, 4*time.Second); ok && rt == 7 && e == 14 {
+				efault = 1
+			}
+			s.be.mu.Lock()
+			s.be.forceKind = p9.ModeRegular | 0644
+			s.be.mu.Unlock()
+			s.send(0, 110, map[string]interface{}{"fid": uint64(2), "newFID": uint64(5), "Names": []string{"new"}})
+			if _, rt, _, ok := s.recvReply(0, 4*time.Second); ok && rt == 111 {
+				walked = 1
+			}
+			s.send(0, 74, map[string]interface{}{"OldDirectory": uint64(0), "OldName": "e", "NewDirectory": uint64(0), "NewName": "g"})
+			if _, rt, _, ok := s.recvReply(0, 4*time.Second); ok && rt == 75 {
+				again = 1
+			}
+			s.close()
+			emit("k7scen name=panic-in-renamed-of-a-descendant-keeps-serving => efault=%d walked=%d again=%d %s", efault, walked, again, s.be.lifecycle())
+		}
 		// after a cross-directory rename the fid that travelled with the file and a fid walked to
 		// the new path afterwards are on one path: SetAttr through one excludes GetAttr through the other
 		{
